@@ -20,6 +20,8 @@ pub mod shredder;
 pub mod test_utils;
 pub mod types;
 pub mod validator;
+#[cfg(feature = "verif-hooks")]
+pub mod verif;
 
 use std::net::SocketAddr;
 use std::sync::Arc;
